@@ -89,7 +89,7 @@ def run_checks(seed, tier="quick", props=None, extra=()):
     try:
         for p in props:
             t0 = time.time()
-            env = dict(os.environ, VERIF_REPO=d)
+            env = dict(os.environ, VERIF_REPO=d, VERIF_EVIDENCE_DIR="/tmp/seed-evidence")
             r = subprocess.run([os.path.join(VERIF, "check"), p, "--tier", tier] + list(extra), cwd=VERIF, env=env,
                                stdout=subprocess.PIPE, stderr=subprocess.STDOUT, text=True)
             lines = [l for l in r.stdout.split("\n") if re.match(r"VIOLATION|UNDECIDED|BROKEN|KNOWN|property=", l)]
